@@ -243,10 +243,28 @@ func sxgMut(args []string) error {
 				}
 			}
 			// in-memory field edits
+			// ... of the exchange as it was built, and of the exchange a recipient holds after reading the file (an object with a
+			// history of its own: whatever the reader kept from the bytes must not stand in for the fields that are verified)
+			fromFile, fromFileErr := readBack(file)
 			mem := func(note string, f func(x *sxg.Exchange)) {
 				x := cloneEx(e)
 				f(x)
 				ctx.emitVer(x, kc, mid, 0, signed, false, nil, false, false, note)
+				if !fromFileErr {
+					y := cloneEx(fromFile)
+					applies := true
+					func() {
+						defer func() {
+							if recover() != nil {
+								applies = false // the edit addresses a field line the reader's object does not have (lines are joined on reading)
+							}
+						}()
+						f(y)
+					}()
+					if applies {
+						ctx.emitVer(y, kc, mid, 0, signed, false, nil, false, false, note+" (object read from the file)")
+					}
+				}
 			}
 			mem("uri+x", func(x *sxg.Exchange) { x.RequestURI += "x" })
 			mem("uri host", func(x *sxg.Exchange) { x.RequestURI = strings.Replace(x.RequestURI, "example.com", "example.org", 1) })
